@@ -1203,8 +1203,9 @@ PEER_CONST = """    pub const PEER: rt::registry::PeerFns = rt::registry::PeerFn
 
 
 def emit_proxy_glue(c, iface_path):
-    """drive the generated multitest proxies from data (Empty chain only)"""
-    assert not c.custom_chain
+    """drive the generated multitest proxies from data"""
+    APP = "AppC" if c.custom_chain else "AppE"
+    VAR = "C" if c.custom_chain else "E"
     ST = c.self_ty()
     inst = c.of("instantiate")[0]
 
@@ -1240,7 +1241,7 @@ def emit_proxy_glue(c, iface_path):
         cls = """match e { ContractError::Scripted { code } => ErrClass::Scripted(*code), ContractError::Std(s) => ErrClass::Std(s.to_string()) }"""
     else:
         cls = """{ let t = e.to_string(); if let Some(rest) = t.strip_prefix("Generic error: scripted:") { if let Ok(code) = rest.parse::<u32>() { return ErrClass::Scripted(code); } } ErrClass::Own(t) }"""
-    return """
+    return ("""
     fn classify_own(e: &%s) -> ErrClass { %s }
     fn presp<E>(r: Result<sylvia::cw_multi_test::AppResponse, E>, cl: fn(&E) -> ErrClass) -> rt::proxy::POut {
         match r { Ok(a) => rt::proxy::POut::Resp(json!({"events": j(&a.events), "data": j(&a.data)})), Err(e) => rt::proxy::POut::Err(cl(&e)) }
@@ -1248,7 +1249,7 @@ def emit_proxy_glue(c, iface_path):
     fn pval<V: serde::Serialize, E>(r: Result<V, E>, cl: fn(&E) -> ErrClass) -> rt::proxy::POut {
         match r { Ok(v) => rt::proxy::POut::Val(j(&v)), Err(e) => rt::proxy::POut::Err(cl(&e)) }
     }
-    pub struct PCodeImpl<'a>(sv::mt::CodeId<'a, %s, rt::proxy::AppE>);
+    pub struct PCodeImpl<'a>(sv::mt::CodeId<'a, %s, rt::proxy::__APP__>);
     impl<'a> rt::proxy::PCode<'a> for PCodeImpl<'a> {
         fn code_id(&self) -> u64 { self.0.code_id() }
         fn instantiate(&self, args: &[u8], opts: &rt::proxy::InstOpts, sender: &Addr) -> rt::proxy::POut {
@@ -1264,13 +1265,13 @@ def emit_proxy_glue(c, iface_path):
             match run() { Ok(o) => o, Err(e) => rt::proxy::POut::Err(ErrClass::Other(format!("harness: {}", e))) }
         }
     }
-    pub fn proxy_store<'a>(app: &'a rt::proxy::SvAppE) -> Box<dyn rt::proxy::PCode<'a> + 'a> {
+    pub fn proxy_store<'a>(app: &'a rt::proxy::Sv__APP__) -> Box<dyn rt::proxy::PCode<'a> + 'a> {
         Box::new(PCodeImpl(sv::mt::CodeId::store_code(app)))
     }
-    pub fn proxy_call(app: &rt::proxy::SvAppE, addr: &Addr, hid: &str, args: &[u8], funds: Option<&[Coin]>, sender: &Addr, new_code: u64) -> rt::proxy::POut {
+    pub fn proxy_call(app: &rt::proxy::Sv__APP__, addr: &Addr, hid: &str, args: &[u8], funds: Option<&[Coin]>, sender: &Addr, new_code: u64) -> rt::proxy::POut {
         let run = || -> StdResult<rt::proxy::POut> {
             let v = parse_args(args)?;
-            let p: sylvia::multitest::Proxy<'_, rt::proxy::AppE, %s> = sylvia::multitest::Proxy::new(addr.clone(), app);
+            let p: sylvia::multitest::Proxy<'_, rt::proxy::__APP__, %s> = sylvia::multitest::Proxy::new(addr.clone(), app);
             Ok(match hid {
                 %s
                 _ => rt::proxy::POut::Err(ErrClass::Other(format!("harness: no proxy method {}", hid))),
@@ -1278,7 +1279,7 @@ def emit_proxy_glue(c, iface_path):
         };
         match run() { Ok(o) => o, Err(e) => rt::proxy::POut::Err(ErrClass::Other(format!("harness: {}", e))) }
     }
-    pub const PROXY: rt::proxy::ProxyFns = rt::proxy::ProxyFns { store: proxy_store, call: proxy_call };
+    pub const PROXY: rt::proxy::ProxyFns = rt::proxy::ProxyFns::__VAR__ { store: proxy_store, call: proxy_call };
 """ % (
         errty,
         cls,
@@ -1286,7 +1287,7 @@ def emit_proxy_glue(c, iface_path):
         typed_args(inst, tmap_for(inst)),
         ST,
         "\n                ".join(arms),
-    )
+    )).replace("__APP__", APP).replace("__VAR__", VAR)
 
 
 # --------------------------------------------------------------------------------------
@@ -1619,6 +1620,8 @@ def family_f1(rng):
             tags=("dispatch", "irregular"),
         )
     )
+    # a contract without the entry_points macro (multitest deployment only)
+    cs.append(Contract("pn", "f1", std_handlers(rng, extra=[Handler("exec", "only_mt", [Arg("n", "u32")])]), uses=[Use(lib["eps"])], err="std", entry_points=False, tags=T + ("regular",)))
     # native 128 bit integer parameters (serde-json-wasm carries them as strings)
     cs.append(
         Contract(
@@ -1798,7 +1801,7 @@ def family_f5(rng):
         return [Handler("reply", "alw", reply=Reply([], "always", **RAW))]
 
     cs = []
-    T = ("custom", "regular")
+    T = ("custom", "regular", "proxy")
     cs.append(Contract("ca", "f5", std_handlers(rng) + alw(), uses=[Use(alpha), Use(beta), Use(onlyx, err="std")], err="own", custom_chain=True, replies=True, tags=T))
     cs.append(Contract("cb", "f5", std_handlers(rng) + alw(), uses=[Use(kq, err="own"), Use(km), Use(eps)], err="std", custom_chain=True, replies=True, tags=T))
     cs.append(Contract("cc", "f5", std_handlers(rng, migrate=False), uses=[Use(alpha), Use(explicit), Use(onlyx, err="std")], err="own", custom_chain=True, tags=T))
